@@ -32,19 +32,39 @@ def run_cli(smt2: str, timeout_s: int, which=None):
         f.write(text)
         path = f.name
     try:
+        procs = []
         for name, cmd, tflag in CLI:
             if which and name not in which:
                 continue
             args = cmd + [tflag.format(t=timeout_s, tms=timeout_s * 1000), path]
             try:
-                p = subprocess.run(args, capture_output=True, text=True, timeout=timeout_s + 5)
-            except (subprocess.TimeoutExpired, FileNotFoundError):
+                procs.append((name, subprocess.Popen(args, stdout=subprocess.PIPE, stderr=subprocess.DEVNULL, text=True)))
+            except FileNotFoundError:
                 continue
-            out = p.stdout.strip().splitlines()
-            head = out[0].strip() if out else ""
-            if head in ("sat", "unsat"):
-                return head, name
-        return "unknown", None
+        # all back ends run concurrently; the first definitive answer wins
+        deadline = time.time() + timeout_s + 5
+        verdict = ("unknown", None)
+        live = list(procs)
+        while live and time.time() < deadline:
+            for name, p in list(live):
+                if p.poll() is not None:
+                    live.remove((name, p))
+                    out = (p.stdout.read() or "").strip().splitlines()
+                    head = out[0].strip() if out else ""
+                    if head in ("sat", "unsat"):
+                        verdict = (head, name)
+                        live = []
+                        break
+            else:
+                time.sleep(0.02)
+        for name, p in procs:
+            if p.poll() is None:
+                p.kill()
+            try:
+                p.wait(timeout=2)
+            except Exception:
+                pass
+        return verdict
     finally:
         try:
             os.unlink(path)
@@ -66,7 +86,8 @@ def check(pc, goal, timeout_ms=10000, portfolio=True, want_model=False):
             backends.add(be)
         return "unsat", "+".join(sorted(b for b in backends if b)), time.time() - t0, None
     s = z3.Solver()
-    s.set("timeout", timeout_ms)
+    # quick in-process attempt first; hard queries go to the concurrent CLI portfolio with the full budget
+    s.set("timeout", min(timeout_ms, 2500) if portfolio else timeout_ms)
     s.add(*pc)
     s.add(z3.Not(goal))
     r = s.check()
@@ -76,7 +97,9 @@ def check(pc, goal, timeout_ms=10000, portfolio=True, want_model=False):
         return "sat", "z3py-%s" % z3.get_version_string(), time.time() - t0, s.model()
     if portfolio:
         try:
-            smt2 = s.to_smt2()
+            # a fresh solver: after check() z3 prints its preprocessed state (internal symbols such as
+            # seq.nth_u) which other solvers cannot parse
+            smt2 = to_smt2(list(pc) + [z3.Not(goal)])
         except Exception:
             smt2 = None
         if smt2:
